@@ -13,11 +13,12 @@
   `apply_pending_rebuilds`, `reset_wal` and the verification step (`Memvid::verify(path, deep)`).
 
   The model is the REPAIRED doctor (fixes/C21.diff): no `debug_assert!(wal_pending == 0)` unless `dbg`,
-  `HealHeaderPointer` only rewrites a pointer that does not reach a TOC, a forced vec rebuild keeps decodable embeddings.
+  `HealHeaderPointer` only rewrites a pointer that does not reach a TOC, a forced vec rebuild keeps decodable embeddings,
+  `inspect_lex_index` compares every Tantivy segment with its stored checksum.
 
   Black boxes (hypotheses of the correspondence, not of the theorems): decoding an undamaged TOC succeeds;
   a damaged pointer / footer / checksum never accidentally matches; no older commit footer survives in the file;
-  Tantivy opens a damaged segment without error (the doctor never inspects Tantivy segments).
+  Tantivy opens a damaged segment without error or `init_tantivy` falls back to a fresh engine.
 -/
 namespace Mv.Doctor
 
@@ -152,8 +153,9 @@ def probe (o : Opts) (c : Cond) : Probe :=
       sumMismatch := !c.hdrSum, tocSumBad := !c.tocSum,
       walPending := c.walOk && c.hasPending, walBad := !c.walOk,
       needsTime := c.time == .corrupt || (c.time == .missing && c.hasFrames),
-      -- Tantivy segments are never inspected; without any lex index the option alone asks for one
-      needsLex := c.lex == .missing && o.rebuildLex,
+      -- a Tantivy segment that no longer matches its stored checksum (repaired code; the unrepaired doctor never
+      -- looked at Tantivy segments); without any lex index the option alone asks for one
+      needsLex := c.lex == .corrupt || (c.lex == .missing && o.rebuildLex),
       needsVec := c.vec == .corrupt || (c.vec == .missing && o.rebuildVec) }
   else Probe.none
 
@@ -283,11 +285,11 @@ def applyRebuilds (e : Exec) : Exec :=
   { mem := { e.mem with c := c }, pTime := false, pLex := false, pVec := false }
 
 /-- `Memvid::verify(path, deep)`: none = it cannot open the file read-only (no valid footer, TOC checksum, WAL
-    region) and returns Err, some b = overall Passed?  (A corrupt time index fails the check when the damage changes
-    the entry count, the order or the framing; the model takes the strict reading: corrupt = Failed.) -/
+    region) and returns Err, some b = overall Passed?  The deep pass compares every index segment (time, vec manifest,
+    Tantivy segments) with the checksum stored for it. -/
 def verify (c : Cond) : Option Bool :=
   if !(footerValid c && c.tocSum && c.walOk) then none
-  else some (c.time != .corrupt && !c.hasPending)
+  else some (c.time != .corrupt && c.lex != .corrupt && c.vec != .corrupt && !c.hasPending)
 
 def runActions (e : Exec) : List Action → Exec × Bool
   | [] => (e, false)
